@@ -37,14 +37,14 @@ LEVEL_NOTE = "trusted: the boundary capture (CaptureMessage hook), the harness' 
 
 def runs(tier, seed):
     if tier == "thorough":
-        return [Run("net_privacy", cases=3000, params={"steps": 60}, timeout=3000),
-                Run("net_privbcast", cases=2000, timeout=3000),
-                Run("privbcast_model", cases=20000, params={"ops": 150, "real_every": 500}, timeout=3000),
-                Run("privbcast_conc", cases=400, flavour="tsan", params={"ops": 600}, timeout=3000)]
-    return [Run("net_privacy", cases=64, params={"steps": 60}, timeout=900),
-            Run("net_privbcast", cases=48, timeout=900),
-            Run("privbcast_model", cases=400, params={"ops": 120, "real_every": 200}, timeout=900),
-            Run("privbcast_conc", cases=32, flavour="tsan", params={"ops": 300}, timeout=900)]
+        return [Run("net_privacy", cases=512, params={"steps": 60}, timeout=20000),
+                Run("net_privbcast", cases=384, timeout=20000),
+                Run("privbcast_model", cases=8000, params={"ops": 150, "real_every": 400}, timeout=20000),
+                Run("privbcast_conc", cases=256, flavour="tsan", params={"ops": 600}, timeout=20000)]
+    return [Run("net_privacy", cases=64, params={"steps": 60}, timeout=7200),
+            Run("net_privbcast", cases=48, timeout=7200),
+            Run("privbcast_model", cases=400, params={"ops": 120, "real_every": 200}, timeout=7200),
+            Run("privbcast_conc", cases=32, flavour="tsan", params={"ops": 300}, timeout=7200)]
 
 
 def check(rec, st):
